@@ -1108,7 +1108,7 @@ class Calls(Interp):
     def comp_as_loop(self, n, g, it):
         res = "_comp%d" % self._bump()
         self.st.env[res] = self.new_box(EmptyV("list"))
-        ety = self.reg.contracts[self.frame.fi.fid].labels.get("comp_types", {}).get(self.loop_ordinal_of(self.frame.fi, n)) if self.frame.fi.fid in self.reg.contracts else None
+        ety = self.frame_contract().labels.get("comp_types", {}).get(self.loop_ordinal_of(self.frame.fi, n)) if self.frame_contract() is not None else None
         if ety is None:
             raise Unsupported("comprehension with effects needs labels['comp_types'][ordinal]")
         self.materialize(self.st.env[res], TList(ety))
